@@ -4,10 +4,11 @@ CONSTANTS
   FL = 2
   DEPTH = 5
   FIELDS = {0, 14, 15}
-  SEEKS = {0}
+  SEEKS = {}
   TYPES = {"d2", "d3"}
   USIZE = 8
   PROP = "C08"
+  APPLYS = {0, 1, 2, 3, 4, 5}
 SPECIFICATION Spec
 VIEW View
 INVARIANTS C03 C04 C06 C08 BufInv
